@@ -152,7 +152,7 @@ def run(res):
         scs = []
         dmaps = {}
         for mk in mks:
-            for samples in ([1, 2, 5] if res.tier == "thorough" else [1, 5]):
+            for samples in ([0, 1, 2, 5] if res.tier == "thorough" else [0, 1, 5]):    # 0 = LRUSamples left unset in the Custom entry
                 rng = vlib.rng_for(res.seed, PID, sid)
                 sc = lru_scenario(rng, sid, "maxkeys", mk, 40 if res.tier == "quick" else 120, rng.choice(["uniform", "fresh", "hot"]))
                 dmaps[sc["_d"]] = {"maxkeys": mk, "lru": True, "lrusamples": samples}
@@ -161,7 +161,7 @@ def run(res):
         for mi in [64 * 3, 64 * 40]:
             rng = vlib.rng_for(res.seed, PID, sid)
             sc = lru_scenario(rng, sid, "maxinuse", mi, 40 if res.tier == "quick" else 120, "fresh")
-            dmaps[sc["_d"]] = {"maxinuse": mi, "lru": True, "lrusamples": 3}
+            dmaps[sc["_d"]] = {"maxinuse": mi, "lru": True, "lrusamples": 3 if mi == 64 * 3 else 0}
             scs.append(sc)
             sid += 1
         rng = vlib.rng_for(res.seed, PID, sid)
